@@ -2009,3 +2009,290 @@ def r_binary_rule_operand_order(prog: Program, col: Collector, refs: Refs, cat: 
             else:
                 col.ok(construct, f"positions mix both operands ({sorted(da)}, {sorted(db)}): not judged", f.loc(c), nontrivial=False)
     col.cur.analysed["op_reapplications_in_binary_rules"] = n
+
+
+# ---------------------------------------------------------------------- a reduction narrowed to the receiver's own variables
+
+
+def r_receiver_narrowed_reduce(prog: Program, col: Collector, refs: Refs, cat: Catalogue, rule: str):
+    """`x.reduce(op, V & x.input_vars)` (or V.intersection(x.inputs)) reduces x only over the variables it mentions.  The variables of
+    V that x does not mention are not a no-op: summing over an absent variable of size n multiplies by n (add), adds log n
+    (logaddexp), raises to the n-th power (mul).  Such a call is right only if the same function also takes the complement
+    `V - x.input_vars` to compensate (or never needs to: an idempotent op under a test)."""
+    col.rule(rule, "a reduction narrowed to the variables its receiver mentions is accompanied by the complement (the absent variables are compensated)", floor=1)
+    n = 0
+    for f in prog.funcs.values():
+        if isinstance(f.node, ast.Lambda):
+            continue
+        calls = [c for c in walk_no_nested(f.node) if isinstance(c, ast.Call) and isinstance(c.func, ast.Attribute)
+                 and c.func.attr in ("reduce", "eager_reduce", "sequential_reduce", "moment_matching_reduce") and len(c.args) >= 2]
+        # comprehensions inside the function body are walked as well (walk_no_nested stops only at defs / lambdas)
+        for c in calls:
+            recv = norm(c.func.value)
+            e = c.args[1]
+            narrowed = None
+            if isinstance(e, ast.BinOp) and isinstance(e.op, ast.BitAnd):
+                for a, b in ((e.left, e.right), (e.right, e.left)):
+                    if isinstance(b, ast.Attribute) and b.attr in ("input_vars", "inputs") and norm(b.value) == recv:
+                        narrowed = (a, b)
+                    if isinstance(b, ast.Call) and isinstance(b.func, ast.Name) and b.func.id in ("frozenset", "set") and len(b.args) == 1 \
+                            and isinstance(b.args[0], ast.Attribute) and b.args[0].attr in ("input_vars", "inputs") and norm(b.args[0].value) == recv:
+                        narrowed = (a, b.args[0])
+            elif isinstance(e, ast.Call) and isinstance(e.func, ast.Attribute) and e.func.attr == "intersection" and len(e.args) == 1:
+                b = e.args[0]
+                if isinstance(b, ast.Attribute) and b.attr in ("input_vars", "inputs") and norm(b.value) == recv:
+                    narrowed = (e.func.value, b)
+            if narrowed is None:
+                continue
+            n += 1
+            V = norm(narrowed[0])
+            # the complement: V - recv.input_vars, V.difference(recv.inputs), or a filter `v not in recv.inputs` over V
+            comp = False
+            for x in ast.walk(f.node):
+                if isinstance(x, ast.BinOp) and isinstance(x.op, ast.Sub) and norm(x.left) == V and isinstance(x.right, ast.Attribute) \
+                        and x.right.attr in ("input_vars", "inputs") and norm(x.right.value) == recv:
+                    comp = True
+                if isinstance(x, ast.Call) and isinstance(x.func, ast.Attribute) and x.func.attr == "difference" and norm(x.func.value) == V and x.args \
+                        and isinstance(x.args[0], ast.Attribute) and norm(x.args[0].value) == recv:
+                    comp = True
+                if isinstance(x, (ast.GeneratorExp, ast.ListComp, ast.SetComp)) and norm(x.generators[0].iter) == V and any(
+                        isinstance(t, ast.Compare) and isinstance(t.ops[0], ast.NotIn) and isinstance(t.comparators[0], ast.Attribute) and norm(t.comparators[0].value) == recv
+                        for t in x.generators[0].ifs):
+                    comp = True
+            col.check(comp, f"{f.fq}::{norm(c)[:70]}", f"the complement `{V} - {recv}.input_vars` is taken in the same function",
+                      f"`{recv}` is reduced over `{norm(e)}` only - the variables of `{V}` that `{recv}` does not mention are silently dropped, and nothing in the function takes "
+                      f"`{V} - {recv}.input_vars` to compensate: a sum over an absent variable of size n must multiply by n (logaddexp: + log n, mul: ** n)", f.loc(c))
+    col.cur.analysed["receiver_narrowed_reductions"] = n
+
+
+# ---------------------------------------------------------------------- both parts of a split of the reduced variables are accounted for
+
+
+def _reaching_closure(func, expr, at_stmt, cfg, _seen=None, _depth=0):
+    """All right-hand sides that can flow (through reaching definitions of locals) into `expr` evaluated at `at_stmt`."""
+    import networkx as nx
+    _seen = _seen if _seen is not None else {}
+    out = [expr]
+    if _depth > 10:
+        return out
+    defs = {}
+    for n in walk_no_nested(func.node):
+        targets = []
+        if isinstance(n, ast.Assign):
+            targets = n.targets
+        elif isinstance(n, (ast.AugAssign, ast.AnnAssign)):
+            targets = [n.target]
+        elif isinstance(n, ast.For):
+            targets = [n.target]
+        for t in targets:
+            for x in ast.walk(t):
+                if isinstance(x, ast.Name) and isinstance(x.ctx, ast.Store):
+                    defs.setdefault(x.id, []).append(n)
+    use_nodes = [x.idx for x in cfg.nodes_for(at_stmt)]
+    for x in ast.walk(expr):
+        if not (isinstance(x, ast.Name) and isinstance(x.ctx, ast.Load)):
+            continue
+        ds = defs.get(x.id, [])
+        def_nodes = {id(d): [n.idx for n in cfg.nodes_for(d)] for d in ds}
+        all_def_nodes = {i for v in def_nodes.values() for i in v}
+        for d in ds:
+            others = all_def_nodes - set(def_nodes[id(d)]) - set(use_nodes)
+            g = cfg.g.subgraph([n for n in cfg.g.nodes if n not in others])
+            reaches = any(a in g and u in g and any(s_ == u or nx.has_path(g, s_, u) for s_ in g.successors(a)) for a in def_nodes[id(d)] for u in use_nodes)
+            if not reaches:
+                continue
+            key = (id(d), x.id)
+            if key in _seen:
+                continue
+            _seen[key] = True
+            rhs = d.iter if isinstance(d, ast.For) else getattr(d, "value", None)
+            if rhs is None:
+                continue
+            out += _reaching_closure(func, rhs, d, cfg, _seen, _depth + 1)
+            # control dependence (syntactic): the tests under which the definition is executed
+            for anc in func.module.ancestors(d):
+                if anc is func.node:
+                    break
+                if isinstance(anc, (ast.If, ast.While)) and (id(anc), "test") not in _seen:
+                    _seen[(id(anc), "test")] = True
+                    out += _reaching_closure(func, anc.test, anc, cfg, _seen, _depth + 1)
+            if isinstance(d, ast.AugAssign):
+                out += _reaching_closure(func, ast.Name(id=x.id, ctx=ast.Load()), d, cfg, _seen, _depth + 1)
+    return out
+
+
+def r_split_reduced_vars_accounted(prog: Program, col: Collector, refs: Refs, cat: Catalogue, rule: str):
+    """A reduction rule that splits its reduced variables into `V & S` and `V - S` (the variables of one kind and the rest) has to deal
+    with both halves on every path that returns a value: the returned value must be computed from each half (flow-sensitively: a
+    later re-binding that discards the intermediate result loses the half that went into it), unless the path has established that
+    the half is empty."""
+    from ..cfg import CFG
+    col.rule(rule, "every returned value of a rule that splits its reduced variables is computed from both halves (or the half is known to be empty)", floor=3)
+    scope = []
+    seen = set()
+    for r in cat.registrations:
+        f = r.target
+        if f is None or not r.pattern or isinstance(f.node, ast.Lambda) or f.fq in seen or not r.registry.startswith("funsor.interpretations."):
+            continue
+        head = refs.resolve(r.pattern[0]) if isinstance(r.pattern[0], (ast.Name, ast.Attribute)) else None
+        if head in ("funsor.terms.Reduce", "funsor.cnf.Contraction", "funsor.integrate.Integrate"):
+            seen.add(f.fq)
+            scope.append(f)
+    for f in prog.funcs.values():
+        if f.name == "eager_reduce" and f.cls is not None and f.fq not in seen and not isinstance(f.node, ast.Lambda):
+            seen.add(f.fq)
+            scope.append(f)
+    n = 0
+    for f in scope:
+        rv = [p for p in f.positional if p in ("reduced_vars",)]
+        if not rv:
+            continue
+        V = rv[0]
+        # halves: V & S / V - S with the same S, or B = V & S', A = V - B
+        inter, diff = {}, {}
+        names_of = {}
+        for x in walk_no_nested(f.node):
+            if isinstance(x, ast.BinOp) and isinstance(x.left, ast.Name) and x.left.id == V and isinstance(x.op, (ast.BitAnd, ast.Sub)):
+                (inter if isinstance(x.op, ast.BitAnd) else diff).setdefault(norm(x.right), []).append(x)
+            if isinstance(x, ast.BinOp) and isinstance(x.right, ast.Name) and x.right.id == V and isinstance(x.op, ast.BitAnd):
+                inter.setdefault(norm(x.left), []).append(x)
+            if isinstance(x, ast.Assign) and len(x.targets) == 1 and isinstance(x.targets[0], ast.Name):
+                names_of.setdefault(norm(x.value), set()).add(x.targets[0].id)
+        pairs = []
+        for S in inter:
+            if S in diff:
+                pairs.append((inter[S], diff[S], S))
+            # A = V - B where B names V & S
+            for bname in names_of.get(f"{V} & {S}", set()) | names_of.get(f"{S} & {V}", set()):
+                if bname in diff and bname != V:
+                    pairs.append((inter[S], diff[bname], S))
+        if not pairs:
+            continue
+        # V itself must not be re-bound (then the halves are not halves of the parameter)
+        if any(isinstance(x, ast.Name) and x.id == V and isinstance(x.ctx, ast.Store) for x in walk_no_nested(f.node)):
+            continue
+        cfg = CFG(f.node)
+        exits = (ast.Return, ast.Raise, ast.Continue, ast.Break)
+
+        def atoms(t, pol):
+            if isinstance(t, ast.UnaryOp) and isinstance(t.op, ast.Not):
+                return atoms(t.operand, not pol)
+            if isinstance(t, ast.BoolOp):
+                if isinstance(t.op, ast.And) == pol:
+                    return [a for v_ in t.values for a in atoms(v_, pol)]
+                return []
+            return [(t, pol)]
+
+        def facts_at(ret):
+            out = []
+            for a in walk_no_nested(f.node):
+                if not isinstance(a, ast.If):
+                    continue
+                inside = lambda blk: any(ret is y for st in blk for y in ast.walk(st))
+                if inside(a.body):
+                    out += atoms(a.test, True)
+                elif inside(a.orelse):
+                    out += atoms(a.test, False)
+                else:
+                    par = f.module.parent.get(a)
+                    for fld in ("body", "orelse", "finalbody"):
+                        blk = getattr(par, fld, None)
+                        if isinstance(blk, list) and any(x is a for x in blk):
+                            k = [j for j, x in enumerate(blk) if x is a][0]
+                            if inside(blk[k + 1:]):
+                                if a.body and isinstance(a.body[-1], exits):
+                                    out += atoms(a.test, False)
+                                elif a.orelse and isinstance(a.orelse[-1], exits):
+                                    out += atoms(a.test, True)
+            return out
+
+        for inters, diffs, S in pairs:
+            halves = [("∩", {norm(x) for x in inters}), ("−", {norm(x) for x in diffs})]
+            # the split belongs to the innermost block that contains all its expressions (one op branch of the rule, say)
+            def chain(x):
+                return [a for a in f.module.ancestors(x) if isinstance(a, (ast.If, ast.For, ast.While, ast.With, ast.Try))][::-1]
+            chains = [chain(x) for x in inters + diffs]
+            common = []
+            for level in zip(*chains):
+                if all(a is level[0] for a in level):
+                    common.append(level[0])
+                else:
+                    break
+            region = common[-1] if common else f.node
+            # which branch of that block?
+            def branch_of(x):
+                for fld in ("body", "orelse", "finalbody"):
+                    blk = getattr(region, fld, None)
+                    if isinstance(blk, list) and any(x is y for st in blk for y in ast.walk(st)):
+                        return fld
+                return None
+            br = branch_of((inters + diffs)[0])
+            for ret in [x for x in walk_no_nested(f.node) if isinstance(x, ast.Return) and x.value is not None and not (isinstance(x.value, ast.Constant) and x.value.value is None)]:
+                if region is not f.node and branch_of(ret) != br:
+                    continue
+                closure = _reaching_closure(f, ret.value, ret, cfg)
+                texts = set()
+                for e in closure:
+                    for y in ast.walk(e):
+                        if isinstance(y, ast.BinOp):
+                            texts.add(norm(y))
+                # the whole V handed on (a delegation) accounts for both halves
+                whole = any(isinstance(y, ast.Name) and y.id == V and not isinstance(f.module.parent.get(y), ast.BinOp) for e in closure for y in ast.walk(e))
+                facts = facts_at(ret)
+                for sym, forms in halves:
+                    n += 1
+                    construct = f"{f.fq}::{norm(ret)[:50]}::{V} {sym} {S}"
+                    if forms & texts or whole:
+                        col.ok(construct, "the returned value is computed from this half" if not whole else f"`{V}` is handed on whole", f.loc(ret), nontrivial=not whole)
+                        continue
+                    # known empty: a test of the half (or a name bound to it) that failed
+                    aliases = set(forms)
+                    for t_ in forms:
+                        aliases |= names_of.get(t_, set())
+                    empty = any((not pol) and norm(a_) in aliases for a_, pol in facts)
+                    # ... or characterised it completely (`half == all real inputs`: handled in closed form on that path)
+                    empty = empty or any(pol and isinstance(a_, ast.Compare) and len(a_.ops) == 1 and isinstance(a_.ops[0], ast.Eq)
+                                         and (norm(a_.left) in aliases or norm(a_.comparators[0]) in aliases) for a_, pol in facts)
+                    col.check(empty, construct, "the path has established that this half is empty",
+                              f"`{norm(ret.value)[:50]}` is not computed from `{sorted(forms)[0]}` (no definition that reaches the return mentions it) and the path does not test that this half of "
+                              f"`{V}` is empty: the reduction over those variables is lost (the result keeps them as inputs, or misses their multiplicity)", f.loc(ret))
+    col.cur.analysed["split_obligations"] = n
+
+
+# ---------------------------------------------------------------------- reduce-if-present needs the if-absent alternative
+
+
+def r_guarded_reduce_has_alternative(prog: Program, col: Collector, refs: Refs, cat: Catalogue, rule: str):
+    """`if name in x.inputs: x = x.reduce(op, name)` handles the case that x mentions the variable.  When it does not, reducing over the
+    variable is still not the identity (sum: times the size, product: to the power of the size): the `if` needs an alternative branch
+    that scales x, unless the op is tested to be idempotent."""
+    col.rule(rule, "a reduction applied only when the operand mentions the variable has an alternative for when it does not", floor=3)
+    n = 0
+    for f in prog.funcs.values():
+        if isinstance(f.node, ast.Lambda):
+            continue
+        for node in walk_no_nested(f.node):
+            if not isinstance(node, ast.If):
+                continue
+            t, positive = node.test, True
+            while isinstance(t, ast.UnaryOp) and isinstance(t.op, ast.Not):
+                t, positive = t.operand, not positive
+            if not (isinstance(t, ast.Compare) and len(t.ops) == 1 and isinstance(t.ops[0], (ast.In, ast.NotIn)) and isinstance(t.comparators[0], ast.Attribute)
+                    and t.comparators[0].attr in ("inputs", "input_vars")):
+                continue
+            if isinstance(t.ops[0], ast.NotIn):
+                positive = not positive
+            present, absent = (node.body, node.orelse) if positive else (node.orelse, node.body)
+            recv = norm(t.comparators[0].value)
+            left = norm(t.left)
+            root = left.split(".")[0]
+            hits = [c for st in present for c in ast.walk(st) if isinstance(c, ast.Call) and isinstance(c.func, ast.Attribute) and c.func.attr == "reduce"
+                    and norm(c.func.value) == recv and len(c.args) >= 2 and norm(c.args[1]).split(".")[0] == root]
+            if not hits:
+                continue
+            n += 1
+            alt = bool(absent) and any(isinstance(x, (ast.Name, ast.Attribute)) and norm(x) == recv for st in absent for x in ast.walk(st))
+            col.check(alt, f"{f.fq}::if {norm(t)[:50]}", "the else / elif branch treats the operand that does not mention the variable",
+                      f"`{recv}` is reduced over `{left}` only if it mentions it, and there is no alternative branch: when `{recv}` does not depend on `{left}` the reduction is skipped "
+                      "altogether, although summing a constant over a variable of size n gives n times the constant (a product: its n-th power)", f.loc(node))
+    col.cur.analysed["guarded_reductions"] = n
